@@ -118,5 +118,47 @@ def juniper_traces():
     return traces
 
 
+def words_traces(clauses):
+    """Sensitive-word anonymizer calls made by the repository's tests, as WordsTrace traces (pseudonyms are learned
+    from single-word anonymizers with the same salt, as in c_words)."""
+    from netconan.sensitive_item_removal import SensitiveWordAnonymizer
+    from netconan.default_reserved_words import default_reserved_words
+    builtin = {w.lower() for w in default_reserved_words}
+    groups = {}
+    for e in _load("words"):
+        c = e["cfg"]
+        if not isinstance(c["salt"], str) or not all(isinstance(w, str) and w for w in c["words"]):
+            continue
+        groups.setdefault((tuple(c["words"]), c["salt"], tuple(c["reserved"]) if c["reserved"] is not None else None), []).append(e)
+    traces, meta = [], []
+    for (words, salt, reserved), evs in groups.items():
+        lines = [(e["in"], e["out"]) for e in evs if "\n" not in e["in"].rstrip("\n") and len(e["in"]) < 300][:120]
+        if not lines:
+            continue
+        toks = {t for ln, _ in lines for t in ln.split()}
+        resv = sorted(set(reserved) if reserved is not None else {t.lower() for t in toks if t.lower() in builtin})
+        mts = set()
+        for t in toks:
+            tl = t.lower()
+            for w in words:
+                i = tl.find(w.lower())
+                while i >= 0:
+                    mts.add(t[i:i + len(w)])
+                    i = tl.find(w.lower(), i + 1)
+        tr = [{"ev": "cfg", "words": [[ord(ch) for ch in w] for w in words], "reserved": [[ord(ch) for ch in w] for w in resv], "clauses": clauses}]
+        texts = [None]
+        for t in sorted(mts):
+            p = SensitiveWordAnonymizer([t], salt, []).anonymize(t)
+            tr.append({"ev": "learn", "text": [ord(ch) for ch in t], "pseudo": [ord(ch) for ch in p]})
+            texts.append(("learn", "%r -> %r" % (t, p)))
+        for ln, out in lines:
+            a, b = ln.rstrip("\n"), out.rstrip("\n")
+            tr.append({"ev": "line", "in": [ord(ch) for ch in a], "out": [ord(ch) for ch in b]})
+            texts.append(("repository-test-suite", "%r -> %r" % (a, b)))
+        traces.append(tr)
+        meta.append({"cfg": {"words": list(words), "reserved": resv[:10], "salt": salt, "source": "repository test-suite"}, "texts": texts})
+    return traces, meta
+
+
 def note(ck):
     ck.notes["repository_test_suite_under_recorder"] = {"pytest": _cache.get("tail"), "rc": _cache.get("rc")}
